@@ -73,9 +73,10 @@ def variants_generic(rng):
                         a[:len(a) // 2] + rng.randbytes(len(a) - len(a) // 2)]
             return out
         if isinstance(a, str):
-            alt = "".join(rng.choice(DIG) for _ in a) if a.isdigit() else a.swapcase()
+            dec = bool(a) and all(c in DIG for c in a)       # ASCII digits only (str.isdigit is true for U+00B2 etc.)
+            alt = "".join(rng.choice(DIG) for _ in a) if dec else a.swapcase()
             out = [alt, a + "0", a[:-1]]
-            if a.isdigit() and a:
+            if dec:
                 # same length: same suffix with another first digit, same prefix with another last digit; the same number
                 # with a leading zero more / less
                 out += [DIG[(int(a[0]) + 1) % 10] + a[1:], a[:-1] + DIG[(int(a[-1]) + 3) % 10], "0" + a, a.lstrip("0") or "0"]
